@@ -792,7 +792,8 @@ fn main() {
                 continue;
             }
             if let Some(rest) = dir.strip_prefix("items ") {
-                // `//@ items SRC | structs|enums [mod=..] [except=A,B] [derive=..]`: every item of that kind, in source order
+                // `//@ items SRC | structs|enums|consts [mod=..] [except=A,B] [derive=..] [maybe-none]`: every item of that kind, in source
+                // order (`maybe-none`: the file may have none today; the directive exists so that a changed file may add one)
                 let parts: Vec<&str> = rest.split('|').map(|s| s.trim()).collect();
                 if parts.len() < 2 {
                     die("template", &format!("bad items directive: {}", raw));
@@ -811,7 +812,7 @@ fn main() {
                         _ => None,
                     }).filter(|n| !except.contains(n)).collect()
                 };
-                if names.is_empty() {
+                if names.is_empty() && !opts.contains_key("maybe-none") {
                     die("lost-anchor", &format!("no items for: {}", raw));
                 }
                 for n in names {
